@@ -42,6 +42,18 @@ def limit_parts(pt):
     return pt
 
 
+def types_under_dtype(term):
+    """Under a data-type class every argument is read as a type name (known finding D12, exercised by C09): keep C10's terms
+    inside what both the API and the spec language can say."""
+    from ..specgen import nested_leaves
+    for l in nested_leaves(term):
+        if "DataType" in l.cls:
+            fix = lambda a: a if isinstance(a, (type, PathT)) else ([x if isinstance(x, type) else str for x in a] if isinstance(a, list) else str)
+            l.args = [fix(a) for a in l.args]
+            l.kwargs = {k: fix(a) for k, a in l.kwargs.items()}
+    return term
+
+
 def float_table(tokens):
     out = []
     for t in tokens:
@@ -87,6 +99,10 @@ def run(tier, seed, model_ok, spec_ok, replay=None):
         raw = pg.path(doc, max_len=3, mods_p=0.4)
         three = [copy.deepcopy(p) for p in raw.parts if sum(1 for a in (getattr(p, "kw", None) or {}).values() if a is not None) > 2]
         pt = normalise_path(limit_parts(raw))
+        for part in pt.parts:
+            for ca in (getattr(part, "kw", None) or {}).values():
+                if ca is not None and not ca.is_lit:
+                    types_under_dtype(ca.cond)
         # ---- parts with three or more components (known finding D43: equal behaviour, but == is not associative)
         for part in three[:1]:
             part = normalise_path(PathT([part])).parts[0]
@@ -162,6 +178,11 @@ def run(tier, seed, model_ok, spec_ok, replay=None):
             rt = rg.rule(doc, cast_p=0.4)
             normalise_path(limit_parts(rt.path))
             normalise_cond(rt.cond)
+            types_under_dtype(rt.cond)
+            for part in rt.path.parts:
+                for ca in (getattr(part, "kw", None) or {}).values():
+                    if ca is not None and not ca.is_lit:
+                        types_under_dtype(ca.cond)
             cs = sg.cond_spec(rt.cond)
             psx = [sg.part_spec(p) for p in rt.path.parts]
             if cs is not None and all(x is not None or isinstance(p, Prim) for x, p in zip(psx, rt.path.parts)):
